@@ -13,6 +13,9 @@ Decided:
     contents and their precision (a single-precision or wrongly indexed twiddle is off by >= 1e-9) and the producer /
     consumer agreement of the twiddle tables, for the reference kernels (all m of the box, incl. the 16-point leaves and
     the bfs driver) and for the AVX C kernels below the assembly leaves (m < 16).
+ L  large dimensions: for m = 64 .. 4096 (quick) / 65536 (thorough) on the reference path, nine complete rows of the matrix
+    (outputs 0,1,2, m/3, m/2-1, m/2, 2m/3, m-2, m-1; all m inputs each) are extracted the same way and compared with the
+    mathematical transform - the recursive driver, the 2048 switch and every twiddle of those rows are thereby covered.
  S  schedule agreement for every dimension m = 1 .. 8192 (quick) / 65536 (thorough), both CPU paths: the table constructor and the transform
     invoke the same sequence of drivers (breadth-first 2/16-point, recursive) on the same sub-dimensions with the same
     twiddle-cursor offsets on entry and exit - the thresholds 16 / 2048 where the algorithm switches are thereby tied
@@ -66,6 +69,80 @@ def expected(m, inverse):
     # inverse: z_i = sum_j y_j * conj(w^(e_j * i))  (scaled by m overall, the library does not divide)
     inv = [[(out[j][i][0], -out[j][i][1]) for j in range(m)] for i in range(m)]
     return inv
+
+
+def expected_row(m, j, inverse):
+    """complex coefficients of output j: forward w^((1+4*bitrev(j))*i); inverse: conj(w^((1+4*bitrev(i))*j))"""
+    k = m.bit_length() - 1
+    row = []
+    for i in range(m):
+        e = (1 + 4 * bitrev(j, k)) * i if not inverse else (1 + 4 * bitrev(i, k)) * j
+        th = pi * (e % (4 * m)) / (2 * m)
+        row.append((cos(th), -sin(th)) if inverse else (cos(th), sin(th)))
+    return row
+
+
+def check_sampled(box, K, name, layout, m, cpu, inverse):
+    """large dimensions: full symbolic instantiation, linear forms of a sample of outputs only (cone evaluation)"""
+    spec = K[name]
+    r = box.instantiate(name, spec, {'m': m}, cpu, expand='values')
+    if r.status != 'ok':
+        return 'call %s' % (r.status,), 0
+    st = dict(getattr(r.bufs['data'].ptr.obj, 'vstore', {}))
+    LF = LinForms()
+    tol = 16 * log(2 * m, 2) * mpf(2) ** -53
+    n = 0
+    for j in sorted({0, 1, 2, m // 3, m // 2 - 1, m // 2, (2 * m) // 3, m - 2, m - 1}):
+        E = expected_row(m, j, inverse)
+        ro, io = layout_offsets(layout, m, j)
+        for part, off in ((0, ro), (1, io)):
+            e = st.get(off)
+            if e is None:
+                return 'output %d not written' % j, n
+            if has_unknown(e[1]):
+                return None, n
+            try:
+                c0, co = LF.of(e[1])
+            except NotLinear as x:
+                return 'output %d is not a linear form: %s' % (j, x), n
+            for key in co:
+                if key[1] != 'data':
+                    return 'output %d depends on uninitialised table memory %s+%d' % (j, key[1], key[2]), n
+            for i in range(m):
+                iro, iio = layout_offsets(layout, m, i)
+                cr = co.get(('in', 'data', iro, 8), mpf(0))
+                ci = co.get(('in', 'data', iio, 8), mpf(0))
+                er, ei = E[i]
+                wr, wi = (er, -ei) if part == 0 else (ei, er)
+                n += 2
+                if abs(cr - wr) > tol or abs(ci - wi) > tol:
+                    return ('%s part of output %d, input %d: coefficients (%s, %s), mathematical transform (%s, %s)' % (
+                        'imaginary' if part else 'real', j, i, mp.nstr(cr, 18), mp.nstr(ci, 18), mp.nstr(wr, 18), mp.nstr(wi, 18))), n
+    return None, n
+
+
+def _sampled_job(args):
+    import sys
+    import threading
+    name, layout, inverse, m = args
+    out = {}
+
+    def work():
+        try:
+            L = ctx.lib()
+            err, n = check_sampled(KBox(L), KERNELS('quick'), name, layout, m, 'generic', inverse)
+            out['r'] = (err, n, None)
+        except (Unsupported, NeedEnum) as e:
+            out['r'] = (None, 0, str(e))
+        except Exception as e:  # noqa
+            out['r'] = (None, 0, 'internal error: %r' % (e,))
+
+    sys.setrecursionlimit(500000)
+    threading.stack_size(512 * 1024 * 1024)
+    t = threading.Thread(target=work)
+    t.start()
+    t.join()
+    return out.get('r', (None, 0, 'worker died'))
 
 
 def check_transform(box, K, name, layout, m, cpu, inverse, R):
@@ -225,6 +302,29 @@ def run(tier):
                 R.ob('transform-matrix-is-the-dft-in-documented-order', subj, 'holds',
                      detail='m in %s fully symbolic%s' % (done, '; larger m pass through an assembly leaf' if len(done) < len(ms) else ''),
                      nontrivial=bool(done))
+    # large dimensions (thresholds 16 / 2048, recursive driver): sampled outputs on the reference path
+    big = [64, 256, 1024, 2048, 4096] if tier == 'quick' else [64, 256, 1024, 2048, 4096, 8192, 16384, 65536]
+    from concurrent.futures import ProcessPoolExecutor
+    fams = (('reim_fft', 'reim', False), ('reim_ifft', 'reim', True), ('cplx_fft', 'cplx', False), ('cplx_ifft', 'cplx', True))
+    jobs = [(name, layout, inverse, m) for (name, layout, inverse) in fams for m in big if m not in ms]
+    with ProcessPoolExecutor(max_workers=min(12, len(jobs))) as ex:
+        results = list(ex.map(_sampled_job, jobs))
+    for name, layout, inverse in fams:
+        bad = None
+        for (jn, jl, ji, m), (err, n, broke) in zip(jobs, results):
+            if jn != name:
+                continue
+            if broke:
+                R.broke('%s m=%d: %s' % (name, m, broke))
+                continue
+            ncoef += n
+            if err:
+                bad = bad or (m, err)
+        if bad:
+            R.ob('sampled-rows-of-large-transforms-are-the-dft', '%s [generic]' % name, 'refuted', detail='m=%d: %s' % bad,
+                 key='%s:generic:sampled-matrix' % name, witness={'m': bad[0]})
+        else:
+            R.ob('sampled-rows-of-large-transforms-are-the-dft', '%s [generic]' % name, 'holds', detail='m in %s, 9 outputs each' % big)
     for (nf, ni, cf, ci, layout) in (('reim_fft', 'reim_ifft', 'new_reim_fft_precomp', 'new_reim_ifft_precomp', 'reim'),
                                      ('cplx_fft', 'cplx_ifft', 'new_cplx_fft_precomp', 'new_cplx_ifft_precomp', 'cplx')):
         for cpu in ('generic', 'accel'):
